@@ -104,6 +104,9 @@ impl Rng {
     }
     /// inclusive range
     pub fn range(&mut self, lo: u64, hi: u64) -> u64 {
+        if hi <= lo {
+            return lo;
+        }
         lo + self.below(hi - lo + 1)
     }
     pub fn chance(&mut self, pct: u32) -> bool {
